@@ -66,3 +66,7 @@ Proof. vm_compute. reflexivity. Qed.
    property assignment outside `if self._do_init:` fails here) *)
 Lemma sweep_wrap_writes : wrap_writes = [].
 Proof. vm_compute. reflexivity. Qed.
+
+(* no constructor's guard was weakened (is not None -> truthiness) or otherwise changed against the reference *)
+Lemma sweep_guards_match_reference : forallb guard_matches_reference ctors = true.
+Proof. vm_compute. reflexivity. Qed.
